@@ -185,6 +185,13 @@ func c02(tier string) int {
 				run.Report(sig("stored-unauthentic"), fmt.Sprintf("%s: the witness stored/cosigned for %s a text that the configured key never signed or whose first line is not the configured origin", c.Label, lc.Origin), rep)
 				return
 			}
+			if !mustRefuse && stext != text {
+				// An authentic submission was accepted: what is stored and
+				// cosigned must be THAT text, not another one (even one the
+				// log signed at some other time).
+				run.Report(sig("stored-other-text-than-submitted"), fmt.Sprintf("%s: accepted, but the witness stored/cosigned a text that differs from the submitted one", c.Label), rep)
+				return
+			}
 			for id, v := range before.ByID {
 				if id != c.ID && after.ByID[id] != v {
 					run.Report(sig("other-log-changed"), fmt.Sprintf("%s: another log's state changed", c.Label), rep)
@@ -226,7 +233,7 @@ func c02(tier string) int {
 				add := func(label string, id string, cp []byte) {
 					cases = append(cases, c02Case{Label: label, ID: id, Old: old, CP: cp, Proof: proof})
 				}
-				shapes := []string{"plain", "ext", "otherlog", "stale-own-valid"}
+				shapes := []string{"plain", "ext", "otherlog", "stale-own-valid", "sizepad", "looseb64"}
 				for _, shape := range shapes {
 					seed, _ := gen.Get(la, u.Main, 4, shape)
 					add("valid "+shape, la.ID(), seed)
@@ -374,7 +381,7 @@ func c02(tier string) int {
 	}
 	run.Set("evaluations", evals)
 	run.Set("exhaustive", true)
-	run.Set("rule", "for 4 configurations (1 log; 2 logs distinct keys; 3 logs of which two share one key under different origins; 2 logs whose keys have the same name but different key material) x {empty witness, every log holding a checkpoint} x 4 seed checkpoints (plain, extension lines, extra signature by another configured log, already cosigned): the complete byte-level 1-edit neighbourhood (every prefix, every single-bit flip, 8 boundary substitutions and deletion at every byte), 25 line-level / signature-block edits, and every checkpoint of every log (4 sizes x 2 shapes, incl. a log configured only elsewhere) submitted under every other configured ID and under unknown IDs (incl. spellings near a configured ID: other case, surrounding space, one character less or more), and every configured origin signed only by each key that is not its own (impostors) under its own ID. Oracle one-directional: accepted or state changed => stored text is in the set of texts the harness signed with the key configured for that ID and starts with that ID's origin; and for inputs the harness decides (crypto/ed25519 directly) carry no valid signature of that key / unsigned text / wrong origin: refused, state unchanged. distinct_nontrivial = distinct (configuration, state, mutated input)")
+	run.Set("rule", "for 4 configurations (1 log; 2 logs distinct keys; 3 logs of which two share one key under different origins; 2 logs whose keys have the same name but different key material) x {empty witness, every log holding a checkpoint} x 6 seed checkpoints (plain, extension lines, extra signature by another configured log, already cosigned, size with a leading zero, root with non-zero base64 padding bits): the complete byte-level 1-edit neighbourhood (every prefix, every single-bit flip, 8 boundary substitutions and deletion at every byte), 25 line-level / signature-block edits, and every checkpoint of every log (4 sizes x 2 shapes, incl. a log configured only elsewhere) submitted under every other configured ID and under unknown IDs (incl. spellings near a configured ID: other case, surrounding space, one character less or more), and every configured origin signed only by each key that is not its own (impostors) under its own ID. Oracle one-directional: accepted or state changed => stored text is in the set of texts the harness signed with the key configured for that ID and starts with that ID's origin; and for inputs the harness decides (crypto/ed25519 directly) carry no valid signature of that key / unsigned text / wrong origin: refused, state unchanged. distinct_nontrivial = distinct (configuration, state, mutated input)")
 	run.Assumption("Ed25519 unforgeability: the set of texts the harness signed is the ground truth for authenticity")
 	return run.Finish()
 }
